@@ -411,7 +411,7 @@ func (tr *fnTrans) locOf(v ssa.Value) loc {
 		switch u := xt.(type) {
 		case *types.Slice:
 			s := tr.val(x.X).S
-			return tr.refLoc(app("eref", app("s_arr", s), "(+ "+app("s_off", s)+" "+idx+")"), u.Elem(), true)
+			return tr.refLoc(app("selem", s, idx), u.Elem(), true)
 		case *types.Pointer:
 			arr := types.Unalias(u.Elem()).Underlying().(*types.Array)
 			bl := tr.locOf(x.X)
